@@ -134,14 +134,11 @@ func cmdJudge(sp CmdSpec, o *cmdObs) func(x *explore.Exec) *explore.Verdict {
 }
 
 func cmdPrograms(thorough bool) []CmdSpec {
-	b := 0
-	if thorough {
-		b = 1
-	}
+	// (free context switches only: with one preemption a single program needs > 5*10^5 executions)
 	ps := []CmdSpec{
-		{Tasks: []CmdTask{{"a", "store", "store"}, {"b", "store", ""}}, Bound: b},
-		{Tasks: []CmdTask{{"a", "store", "store"}, {"b", "store", "store"}}, Bound: b},
-		{Tasks: []CmdTask{{"a", "x,store", "store,y"}, {"b", "store,y", ""}}, Bound: b},
+		{Tasks: []CmdTask{{"a", "store", "store"}, {"b", "store", ""}}, Bound: 0},
+		{Tasks: []CmdTask{{"a", "store", "store"}, {"b", "store", "store"}}, Bound: 0},
+		{Tasks: []CmdTask{{"a", "x,store", "store,y"}, {"b", "store,y", ""}}, Bound: 0},
 	}
 	if thorough {
 		// controls: plain writer vs reader, two readers (free switches only: the readers really overlap)
